@@ -150,7 +150,7 @@ func discharge(sc *Script, obls []*Obligation, outDir string, secs int, thorough
 				r = runSolvers(sc.query(o.Pos, o.Goal, true, false, 0), file, secs, thorough)
 			}
 			o.Status, o.Solver, o.Secs = r.status, r.solver, r.secs
-			if r.status == "unsat" {
+			if r.status == "unsat" && os.Getenv("GOVC_KEEP") == "" && o.Kind != "cover" && o.Kind != "vacuity" {
 				os.Remove(file)
 			} else {
 				o.Model = r.out
